@@ -29,7 +29,9 @@ ASSUME WellFormed(T1) /\ WellFormed(T2)
 SKseed == <<7>>
 SKprf  == <<11>>
 PKseed == <<13>>
-Key(t) == slh_keygen_internal(Toy(t), SKseed, SKprf, PKseed)
+Key1 == slh_keygen_internal(T1, SKseed, SKprf, PKseed)         \* constants: evaluated once
+Key2 == slh_keygen_internal(T2, SKseed, SKprf, PKseed)
+Key(t) == IF t = "T1" THEN Key1 ELSE Key2
 
 \* an address inside some tree: layer 1, tree 2, as the callers of WOTS/XMSS/FORS set it
 TreeADRS == setTreeAddress(setLayerAddress(NewADRS, 1), NumOfInt(2, 8))
@@ -40,14 +42,21 @@ Hi(v, bits) == {v, v + (256 - Pow2(bits))}                    \* the low `bits` 
 B1(p) == LET u == p.k * p.a IN UNION {{x * Pow2(8 - u), x * Pow2(8 - u) + Pow2(8 - u) - 1} : x \in 0..(Pow2(u) - 1)}
 B2(p) == UNION {Hi(v, p.h - p.hp) : v \in 0..(Pow2(p.h - p.hp) - 1)}
 B3(p) == UNION {Hi(v, p.hp) : v \in 0..(Pow2(p.hp) - 1)}
-SetSeq(S) == SetToSeq(S)
+\* Level 1: the cross product (T2: unused bits of bytes 2, 3 zero).  Level 0: every md with one (idx_tree, idx_leaf), and every
+\* (idx_tree, idx_leaf, mask variant) with one md -- the FORS part depends on md only, the hypertree part on the indices only.
 Digests(t) ==                                                     \* as a sequence, so that cases can be numbered
-  LET p == Toy(t)
+  LET p  == Toy(t)
       b1 == SetToSortSeq(B1(p), <)
-      b2 == SetToSortSeq(IF t = "T2" /\ Level = 0 THEN {x \in B2(p) : x < 16} ELSE B2(p), <)
-      b3 == SetToSortSeq(B3(p), <)
-  IN  [i \in 1..(Len(b1) * Len(b2) * Len(b3)) |->
-         <<b1[((i - 1) % Len(b1)) + 1], b2[(((i - 1) \div Len(b1)) % Len(b2)) + 1], b3[((i - 1) \div (Len(b1) * Len(b2))) + 1]>>]
+      b2 == SetToSortSeq(IF t = "T2" /\ Level = 1 THEN {x \in B2(p) : x < 16} ELSE B2(p), <)
+      b3 == SetToSortSeq(IF t = "T2" /\ Level = 1 THEN {x \in B3(p) : x < 4} ELSE B3(p), <)
+      n1 == Len(b1)
+      n2 == Len(b2)
+      n3 == Len(b3)
+  IN  IF Level = 1
+      THEN [i \in 1..(n1 * n2 * n3) |->
+              <<b1[((i - 1) % n1) + 1], b2[(((i - 1) \div n1) % n2) + 1], b3[((i - 1) \div (n1 * n2)) + 1]>>]
+      ELSE [i \in 1..n1 |-> <<b1[i], b2[(i % n2) + 1], b3[(i % n3) + 1]>>]
+           \o [i \in 1..(n2 * n3) |-> <<b1[((7 * i) % n1) + 1], b2[((i - 1) % n2) + 1], b3[((i - 1) \div n2) + 1]>>]
 DG1 == Digests("T1")
 DG2 == Digests("T2")
 DG(t) == IF t = "T1" THEN DG1 ELSE DG2
@@ -112,7 +121,7 @@ ConvOK ==
   /\ \A x \in {0, 1, 255, 256, 65535, 16909060, 2147483647} : toInt(toByte(x, 4), 4) = x /\ NumVal(toNum(toByte(x, 4))) = x
   /\ NumToByte(toNum(<<255, 255, 255, 255, 255, 255, 255, 255>>), 12) = <<0, 0, 0, 0, 255, 255, 255, 255, 255, 255, 255, 255>>
   /\ NumToByte(NumShr(toNum(<<1, 2, 3>>), 8), 3) = <<0, 1, 2>>
-  /\ NumVal(NumMod2(toNum(<<1, 2, 3>>), 9)) = 259
+  /\ NumVal(NumMod2(toNum(<<1, 2, 3>>), 9)) = 3
 
 \* ---- cases, numbered per kind and dealt to shards
 Count(kind, t) ==
